@@ -153,7 +153,9 @@ def run(chk):
                 or (r["cls"].startswith(("path:rel|", "path:arel|")) and r["body"][0] == "val" and r["body"][2]["k"] == "elem")
                 or (r["method"] == "PUT" and "qualifier_type" in r["rule"] and r["cls"].startswith(("valid|body:qual", "path:valid|body:qual")))
                 or r["cls"].endswith("body:upload-samename") or "defective-" in r["cls"] or "name" in r["cls"].split("body:")[-1]
-                or "deep-" in r["cls"]
+                or "deep-" in r["cls"] or "ctparam:" in r["cls"] or "redirect-tail" in r["cls"]
+                or (r["body"][0] == "val" and any(t in r["cls"] for t in ("body:list-", "body:sm-list", "body:blob-")) and
+                    r["cls"].startswith(("valid|", "path:list|", "path:list-range|", "path:blob-empty|")))
                 or (r["method"] == "POST" and r["body"][0] == "val" and r["body"][1] == "json"
                     and r["cls"].startswith(("valid|", "path:coll|", "path:nested|")))      # creating requests (repeated after a 201)
                 or (r["body"][0] == "val" and "classchange" in str(r["cls"]) and r["cls"].startswith(("valid|", "path:coll|", "path:classchange|"))))]
